@@ -19,6 +19,7 @@ struct Sink {
     std::string buf;
     FILE* f = nullptr;
     uint64_t n = 0;
+    bool autoflush = false;        // write every event through (scenarios that are expected to crash)
     void lock() { while (lk.test_and_set(std::memory_order_acquire)) { } }
     void unlock() { lk.clear(std::memory_order_release); }
     void flush_locked() {
@@ -89,7 +90,7 @@ struct Ev {
         auto& s = sink();
         s.lock();
         s.buf += j; s.n++;
-        if (s.buf.size() > (1 << 20)) s.flush_locked();
+        if (s.autoflush || s.buf.size() > (1 << 20)) s.flush_locked();
         s.unlock();
     }
 };
